@@ -4233,14 +4233,26 @@ func (t *Terminal) toggleItem(item *Item) bool {
 func (t *Terminal) killPreview() {
 	select {
 	case t.killChan <- true:
+		if verifOn {
+			verifPreview("signal", "immediately", true, "sent", true)
+		}
 	default:
+		if verifOn {
+			verifPreview("signal", "immediately", true, "sent", false)
+		}
 	}
 }
 
 func (t *Terminal) cancelPreview() {
 	select {
 	case t.killChan <- false:
+		if verifOn {
+			verifPreview("signal", "immediately", false, "sent", true)
+		}
 	default:
+		if verifOn {
+			verifPreview("signal", "immediately", false, "sent", false)
+		}
 	}
 }
 
@@ -4544,6 +4556,9 @@ func (t *Terminal) Loop() error {
 							for {
 								select {
 								case <-ctx.Done():
+									if verifOn {
+										verifPreview("ctxdone", "version", version)
+									}
 									break Loop
 								case <-timer.C:
 									t.reqBox.Set(reqPreviewDelayed, version)
@@ -5060,6 +5075,9 @@ func (t *Terminal) Loop() error {
 					if t.canPreview() {
 						valid, list := t.buildPlusList(t.previewOpts.command, false)
 						if valid {
+							if verifOn {
+								verifPreview("enqueue", "q", string(t.input), "item", verifItemIndex(list[0]), "nitems", len(list), "template", t.previewOpts.command)
+							}
 							t.cancelPreview()
 							t.previewBox.Set(reqPreviewEnqueue,
 								previewRequest{t.previewOpts.command, t.evaluateScrollOffset(), list, t.environForPreview(), string(t.input)})
